@@ -43,6 +43,8 @@ type Op struct {
 	// parameters
 	DryRun bool   `json:"dry_run,omitempty"`
 	IK     string `json:"ik,omitempty"`
+	// CancelAt > 0: the request's context is cancelled when its client reaches its CancelAt-th hook point
+	CancelAt int `json:"cancel_at_hook,omitempty"`
 	// what the script grants (for the C02 oracle): account -> "unbounded" or decimal bound
 	Overdraft map[string]string `json:"overdraft,omitempty"`
 }
@@ -281,6 +283,8 @@ func classify(err error) string {
 		return "ik-in-use"
 	case strings.Contains(s, "injected"):
 		return "store-error"
+	case strings.Contains(s, "context canceled"):
+		return "cancelled"
 	}
 	return "other"
 }
@@ -398,7 +402,14 @@ func (e *Env) RunPhaseControlled(s *Scheduler, plans []ClientPlan) PhaseResult {
 			for _, op := range p.Ops {
 				rec := e.hist.call(p.Name, g.n, op, e.step.Add(1))
 				rec.LogsAtCall, rec.MsgsAtCall = e.counts()
-				res := execOp(ctx, g.cmd, op)
+				octx := ctx
+				if op.CancelAt > 0 {
+					var cancel context.CancelFunc
+					octx, cancel = context.WithCancel(ctx)
+					t.cancelAfter, t.cancelFn = op.CancelAt, cancel
+				}
+				res := execOp(octx, g.cmd, op)
+				t.cancelAfter, t.cancelFn = 0, nil
 				rec.LogsAtRet, rec.MsgsAtRet = e.counts()
 				e.hist.ret(rec, res, e.step.Add(1))
 				verifhook.Yield(ctx, "client.next")
@@ -428,7 +439,14 @@ func (e *Env) RunPhaseFree(seed uint64, plans []ClientPlan, timeout time.Duratio
 			defer wg.Done()
 			for _, op := range p.Ops {
 				rec := e.hist.call(p.Name, g.n, op, e.step.Add(1))
-				res := execOp(base, g.cmd, op)
+				octx := base
+				if op.CancelAt > 0 {
+					var cancel context.CancelFunc
+					octx, cancel = context.WithCancel(base)
+					d := time.Duration(f.rnd()%uint64(op.CancelAt*120)) * time.Microsecond
+					go func() { time.Sleep(d); cancel() }()
+				}
+				res := execOp(octx, g.cmd, op)
 				e.hist.ret(rec, res, e.step.Add(1))
 			}
 		}()
